@@ -11,7 +11,9 @@ Inductive addr :=
 | AHostNotIP           (* host is not an IP literal (hostname, zoned literal, empty) *)
 | AIP (i : ip).        (* parsed IP; ParseIP yields 16-byte values *)
 
-Inductive db_answer := DbErr | DbOk (country : bytes).
+(* an error may come with a partially filled answer (the MMDB map queries the country and ASN
+   databases independently and joins their errors); the partial country is never a label *)
+Inductive db_answer := DbErr (partial : bytes) | DbOk (country : bytes).
 
 Definition cc_XA := Gen.Consts.cc_err_parse_addr.
 Definition cc_XL := Gen.Consts.cc_local.
@@ -26,7 +28,7 @@ Definition info_from_ip (enabled : bool) (db : ip -> db_answer) (i : ip) : bytes
        | _ =>
          if negb (is_global_unicast i) then (cc_XL, false)
          else match db i with
-              | DbErr => (cc_XD, true)
+              | DbErr _ => (cc_XD, true)
               | DbOk c => (match c with [] => cc_ZZ | _ => c end, true)
               end
        end.
